@@ -377,15 +377,15 @@ theorem C02_flags_preserve_order (s : Schema) (n : String) :
 /-- Specification of the `MakeDerived( x, cr )` calls that `initializeAttrs` prints into the constructors of an entity with a
     single-inheritance ancestry (ordered_attrs.cc `populateAttrList` + `dedupList`): exactly one call per attribute name `x`
     whose FIRST occurrence along the chain (root first, declaration order) is in entity `cr`, and which is either declared in
-    a DERIVE clause there or occurs again later on the chain (that is: is redeclared — as derived OR as explicit). -/
+    a DERIVE clause there or is redeclared in a DERIVE clause later on the chain. -/
 theorem C02_derived_calls_chain {s : Schema} {n : String} {c : List Entity} (h : IsChain s n c)
     (hf : c.length ≤ fuelOf s) (x cr : String) :
     (x, cr) ∈ derivedCalls s n ↔ DerivedCall (flatAttrs c) x cr :=
   derivedCalls_chain h hf x cr
 
 /-- Which attributes of a fresh instance are flagged `_derive` (written `*`), for every entity with a single-inheritance ancestry
-    of any length: exactly those whose name occurs again further down the chain (a redeclaration) — the set Part 21 11.2.6
-    intends, plus the attributes redeclared as EXPLICIT (`C02_flags_explicit_redeclaration_witness`).
+    of any length: exactly those that are redeclared in a DERIVE clause further down the chain — the set Part 21 11.2.6 intends
+    (`DerivedCall` with `marksDerived`; an explicit redeclaration does not count since fix C02-7).
     Partial: excluded are instances with an entity of several supertypes in their ancestry, where a derivation on a non-principal
     path is lost (`C02_flags_second_supertype_witness`); `KeysNodup`: (owner, registered name) tells the attributes apart. -/
 theorem C02_flags_derive_chain_partial {s : Schema} {n : String} {c : List Entity} (h : IsChain s n c)
@@ -434,18 +434,31 @@ example : IsChain exChain "r" ([exChain.entities[0]!] ++ [exChain.entities[1]!] 
 example : KeysNodup exChain.entities := by unfold KeysNodup; decide
 
 example : instanceFlags exChain "r" =
-    some [(⟨"a", "x", .E⟩, true, false), (⟨"a", "y", .E⟩, true, true), (⟨"b", "b1", .E⟩, false, false),
+    some [(⟨"a", "x", .E⟩, true, false), (⟨"a", "y", .E⟩, false, true), (⟨"b", "b1", .E⟩, false, false),
           (⟨"r", "a.y", .R⟩, false, false)] := by decide
 
-/-- Deviation 1 from what Part 21 intends (11.2.6: only a redeclaration AS DERIVED makes the supertype's position `*`): an
-    EXPLICIT redeclaration `SELF\a.y : REAL` also marks `a.y` derived (and redefined).  Asked of the real code: INST lines of
-    corpus d1-diamond-explicit-redeclaration show `a.y/Edr`. -/
-theorem C02_flags_explicit_redeclaration_witness :
+/-- `populateAttrList` marks an inherited attribute derived only for a redeclaration in the DERIVE clause (regenerated from
+    ordered_attrs.cc; before fix C02-7 every redeclaration did, and this does not elaborate). -/
+theorem C02_explicit_redeclaration_not_derived : explicitRedeclMarksDerived = false := rfl
+
+/-- An EXPLICIT (type-narrowing) redeclaration `SELF\a.y : REAL` leaves `a.y` an ordinary value position (ISO 10303-21 11.2.6
+    prescribes `*` only for a redeclaration as DERIVED): the attribute is wired to the redefining attribute (`_redefAttr`) but not
+    flagged derived. -/
+theorem C02_flags_explicit_redeclaration :
     instanceFlags
       { name := "w1", entities := [
           { name := "a", attrs := [{ name := "y", type := .base .real }] },
           { name := "r", supers := ["a"], attrs := [{ name := "y", redecl := some "a", type := .base .real }] }] } "r"
-      = some [(⟨"a", "y", .E⟩, true, true), (⟨"r", "a.y", .R⟩, false, false)] := by
+      = some [(⟨"a", "y", .E⟩, false, true), (⟨"r", "a.y", .R⟩, false, false)] := by
+  decide
+
+/-- The rule before fix C02-7 (every own attribute that repeats an inherited name marks it derived): the `orderedAttr` of
+    `a.y` becomes "derived by r" for the explicit redeclaration above, `MakeDerived( "y", "a" )` is emitted and the value at the
+    supertype's position is written `*` — on the real code `#1=SUB(5.0,'t',7)` was written back as `#1=SUB(*,'t',7)`. -/
+theorem C02_flags_explicit_redeclaration_witness :
+    let xs : List (String × Attr) := [("a", { name := "y", type := .base .real }),
+                                      ("r", { name := "y", redecl := some "a", type := .base .real })]
+    (xs.foldl (popStepM true) []).map (·.deriver) = [true] ∧ (xs.foldl (popStepM false) []).map (·.deriver) = [false] := by
   decide
 
 /-- Deviation 2: a derivation on a NON-principal path is lost.  `u SUBTYPE OF (c, b)`, `b` redeclares `SELF\a.x` as derived:
